@@ -439,7 +439,20 @@ func recoverWords(f func() bm.Bit1024) (r []bm.Bit64, msg string) {
 }
 
 // run executes one spec on the implementation and emits the case.
-func run(e *vh.Env, sp spec) {
+func run(e *vh.Env, sp spec) { runObs(e, sp, nil, "") }
+
+// observed: a result that was already obtained (class par/*: the call ran inside a goroutine's loop); runObs then only
+// prints the case instead of calling the implementation again.
+type observed struct {
+	it    *iterOut
+	g     *getOut
+	words []bm.Bit64 // result of And / Or / OrThenReverse / Reverse
+	isW   bool
+	l, nl int
+	isLen bool
+}
+
+func runObs(e *vh.Env, sp spec, ov *observed, classPrefix string) {
 	rp, _ := json.Marshal(sp)
 	t := ity(sp.Ty)
 	desc := map[string]interface{}{"call": sp}
@@ -449,7 +462,12 @@ func run(e *vh.Env, sp spec) {
 	case "iter64":
 		w := parseWords(sp.A)[0]
 		bm.VerifSetSparseMagic(sp.Magic)
-		o := iter64(w, t, sp.Rev, fill(t, sp.BufL, sp.Seed), sp.Pos, sp.Add, sp.N)
+		o := iterOut{}
+		if ov != nil && ov.it != nil {
+			o = *ov.it
+		} else {
+			o = iter64(w, t, sp.Rev, fill(t, sp.BufL, sp.Seed), sp.Pos, sp.Add, sp.N)
+		}
 		bm.VerifSetSparseMagic(9)
 		coq = fmt.Sprintf("CIter64 %s %s %s %s (fill %s %d %d) %s %s %s %s", ityName[t], vh.CoqBool(sp.Rev), coqZ(int64(sp.Magic)), coqN(uint64(w)),
 			ityName[t], sp.BufL, sp.Seed, coqZ(int64(sp.Pos)), coqZ(sp.Add), coqZ(int64(sp.N)), coqOut(o))
@@ -459,7 +477,12 @@ func run(e *vh.Env, sp spec) {
 	case "iter1024":
 		b := bm.Bit1024(parseWords(sp.A))
 		bm.VerifSetSparseMagic(sp.Magic)
-		o := iter1024(b, t, sp.Rev, fill(t, sp.BufL, sp.Seed), sp.Pos, sp.Add, sp.N)
+		o := iterOut{}
+		if ov != nil && ov.it != nil {
+			o = *ov.it
+		} else {
+			o = iter1024(b, t, sp.Rev, fill(t, sp.BufL, sp.Seed), sp.Pos, sp.Add, sp.N)
+		}
 		bm.VerifSetSparseMagic(9)
 		coq = fmt.Sprintf("CIter1024 %s %s %s %s (fill %s %d %d) %s %s %s %s", ityName[t], vh.CoqBool(sp.Rev), coqZ(int64(sp.Magic)), coqWords(b),
 			ityName[t], sp.BufL, sp.Seed, coqZ(int64(sp.Pos)), coqZ(sp.Add), coqZ(int64(sp.N)), coqOut(o))
@@ -469,7 +492,12 @@ func run(e *vh.Env, sp spec) {
 	case "get64":
 		w := parseWords(sp.A)[0]
 		bm.VerifSetSparseMagic(sp.Magic)
-		o := get64(w, t, sp.Rev, sp.N)
+		o := getOut{}
+		if ov != nil && ov.g != nil {
+			o = *ov.g
+		} else {
+			o = get64(w, t, sp.Rev, sp.N)
+		}
 		bm.VerifSetSparseMagic(9)
 		coq = fmt.Sprintf("CGet64 %s %s %s %s %s %s", ityName[t], vh.CoqBool(sp.Rev), coqZ(int64(sp.Magic)), coqN(uint64(w)), coqZ(int64(sp.N)), coqGOut(o))
 		class = fmt.Sprintf("get64/%s/%s", ityName[t], dirName(sp.Rev))
@@ -478,7 +506,12 @@ func run(e *vh.Env, sp spec) {
 	case "get1024":
 		b := bm.Bit1024(parseWords(sp.A))
 		bm.VerifSetSparseMagic(sp.Magic)
-		o := get1024(b, t, sp.Rev, sp.N)
+		o := getOut{}
+		if ov != nil && ov.g != nil {
+			o = *ov.g
+		} else {
+			o = get1024(b, t, sp.Rev, sp.N)
+		}
 		bm.VerifSetSparseMagic(9)
 		coq = fmt.Sprintf("CGet1024 %s %s %s %s %s %s", ityName[t], vh.CoqBool(sp.Rev), coqZ(int64(sp.Magic)), coqWords(b), coqZ(int64(sp.N)), coqGOut(o))
 		class = fmt.Sprintf("get1024/%s/%s", ityName[t], dirName(sp.Rev))
@@ -508,23 +541,35 @@ func run(e *vh.Env, sp spec) {
 	case "len":
 		b := bm.Bit1024(parseWords(sp.A))
 		l, nl := -1, -1
-		func() {
-			defer func() { recover() }()
-			l = b.Len()
-			nl = b.NLen()
-		}()
+		if ov != nil && ov.isLen {
+			l, nl = ov.l, ov.nl
+		} else {
+			func() {
+				defer func() { recover() }()
+				l = b.Len()
+				nl = b.NLen()
+			}()
+		}
 		coq = fmt.Sprintf("CLen %s %s %s", coqWords(b), coqZ(int64(l)), coqZ(int64(nl)))
 		class = "len"
 		desc["len"], desc["nlen"] = l, nl
 	case "reverse":
 		b := bm.Bit1024(parseWords(sp.A))
-		r, msg := recoverWords(func() bm.Bit1024 { return b.Reverse() })
+		r, msg := recoverWords(func() bm.Bit1024 {
+			if ov != nil && ov.isW {
+				return ov.words
+			}
+			return b.Reverse()
+		})
 		coq = fmt.Sprintf("CReverse %s %s", coqWords(b), coqWords(r))
 		class = "reverse"
 		desc["result"], desc["panic"] = hexWords(r), msg
 	case "bin":
 		a, b := bm.Bit1024(parseWords(sp.A)), bm.Bit1024(parseWords(sp.B))
 		r, msg := recoverWords(func() bm.Bit1024 {
+			if ov != nil && ov.isW {
+				return ov.words
+			}
 			switch sp.Op {
 			case "BAnd":
 				return a.And(b)
@@ -584,7 +629,7 @@ func run(e *vh.Env, sp spec) {
 	default:
 		panic("unknown kind " + sp.Kind)
 	}
-	e.Emit(vh.Case{Coq: "(" + coq + ")", Desc: desc, Class: class, Nontrivial: nontrivial, Replay: string(rp)})
+	e.Emit(vh.Case{Coq: "(" + coq + ")", Desc: desc, Class: classPrefix + class, Nontrivial: nontrivial, Replay: string(rp)})
 }
 
 func main() {
